@@ -25,6 +25,9 @@ pub struct Case {
     pub proj: Proj,
     /// failure of the property oracle evaluated on the implementation: (stable key, message)
     pub oracle_fail: Option<(String, String)>,
+    /// a failure that is reported only when no other check of the case fails: used for the checks that correspond to a
+    /// recorded known finding, so that the finding never hides a second, different failure of the same case
+    pub deferred_fail: Option<(String, String)>,
     /// counted in `distinct_nontrivial` (by the property's own rule)
     pub nontrivial: bool,
     /// counters for the measured input distribution
@@ -39,10 +42,10 @@ pub struct Case {
 
 impl Case {
     pub fn new(op: String, impl_out: String) -> Self {
-        Case { op, impl_out, proj: Proj::Exact, oracle_fail: None, nontrivial: true, tags: vec![], spec: None, alt: None }
+        Case { op, impl_out, proj: Proj::Exact, oracle_fail: None, deferred_fail: None, nontrivial: true, tags: vec![], spec: None, alt: None }
     }
     pub fn oracle_only() -> Self {
-        Case { op: String::new(), impl_out: String::new(), proj: Proj::None, oracle_fail: None, nontrivial: true, tags: vec![], spec: None, alt: None }
+        Case { op: String::new(), impl_out: String::new(), proj: Proj::None, oracle_fail: None, deferred_fail: None, nontrivial: true, tags: vec![], spec: None, alt: None }
     }
     pub fn tag(mut self, t: &str) -> Self {
         self.tags.push(t.to_string());
@@ -58,6 +61,12 @@ impl Case {
     }
     pub fn spec(mut self, op: String, check: fn(&str, &str) -> Option<(String, String)>) -> Self {
         self.spec = Some((op, check));
+        self
+    }
+    pub fn fail_if_nothing_else(mut self, key: &str, msg: String) -> Self {
+        if self.deferred_fail.is_none() {
+            self.deferred_fail = Some((key.to_string(), msg));
+        }
         self
     }
     pub fn fail(mut self, key: &str, msg: String) -> Self {
@@ -227,7 +236,7 @@ pub fn evaluate(property: &str, driver: &str, cases: Vec<Case>) -> Report {
         for t in &c.tags {
             *rep.tags.entry(t.clone()).or_insert(0) += 1;
         }
-        if let Some((key, msg)) = &c.oracle_fail {
+        if let Some((key, msg)) = c.oracle_fail.as_ref().or(c.deferred_fail.as_ref()) {
             rep.oracle_failures.push((i, key.clone(), msg.clone(), c.op.clone()));
         }
         if i % step == 0 && rep.samples.len() < 8 && !c.op.is_empty() {
